@@ -857,6 +857,7 @@ func runC04(cfg *vh.Config) error {
 		if len(props) == 0 {
 			continue
 		}
+		dedupProps(props) // client property names through flatten levels: a clash is not a valid package (pinned ones: nested stream)
 		objDesc := genDesc(r)
 		var pl []Prop
 		for _, p := range props {
@@ -895,6 +896,14 @@ func runC04(cfg *vh.Config) error {
 		}
 		mem := reflectObject(md)
 		txt, text := reflectFromText(c.file, "Foo")
+		// ---- stream: the reader's check of client property names (through flatten levels) vs tree_names_ok
+		{
+			clash := mem.err != nil && isClientNameClash(mem.err.Error())
+			cf.Terms = append(cf.Terms, fmt.Sprintf("C04Names %s (MT (RO %s %s (Some %s) [%s]) []) %s", fixedRefsTerm(), vh.BytesTerm("Foo"), vh.BytesTerm(""),
+				map[string]string{"object": "RObject", "oneof": "ROneof"}[kind], strings.Join(outs, ";"), vh.BoolTerm(clash)))
+			res.Cases = append(res.Cases, vh.CaseRec{Case: caseNo, Stream: "client-names", Input: input, Impl: map[string]any{"reader_refuses_name_clash": clash}})
+			res.Count("client-names")
+		}
 		// ---- stream: model reader vs real reflector
 		refl := `(Err "reflect")`
 		if mem.panic != nil {
